@@ -248,6 +248,11 @@ func (w *worker) emit(cs *caseT) {
 	if out.RejectExpected {
 		r.Notes["rejection-expected"]++
 	}
+	if out.DroveRounds > 0 {
+		r.Notes["drive-on-cases"]++
+		r.Notes["drive-on-rounds"] += int64(out.DroveRounds)
+		r.Notes["drive-on-heights"] += int64(out.DroveHeights)
+	}
 	if out.LateCalls > 0 {
 		r.Notes["fetcher-sequences-with-a-late-request-call"]++
 	}
